@@ -91,25 +91,26 @@ func (c16) Thresholds(tier string) map[string]int64 {
 		"accepted":                              300,
 		"refused":                               400,
 		"script-run-after-refused-registration": 300,
-		"must-refuse-checked":                   400,
-		"non-function-values-refused":           400,
-		"script-side-calls":                     8000,
-		"calls:matching-arguments":              1500,
-		"calls:wrong-count":                     1500,
-		"calls:wrong-type":                      1500,
-		"calls:number-out-of-range-for-kind":    150,
-		"calls:nan-or-inf-into-integer":         100,
-		"calls:fractional-into-integer":         100,
-		"faithful-conversions-checked":          2000,
-		"variadic-accepted":                     100,
-		"variadic-tail-lengths>=2":              100,
-		"named-parameter-type-accepted":         100,
-		"function-bridge":                       900,
-		"command-bridge":                        900,
-		"command-in-bridge-goroutine":           100,
-		"result:value-converted-back":           150,
-		"result:error-surfaced":                 150,
-		"result:nil-channel-is-error":           10,
+		"re-registrations-with-closures-of-one-literal": 500,
+		"must-refuse-checked":                           400,
+		"non-function-values-refused":                   400,
+		"script-side-calls":                             8000,
+		"calls:matching-arguments":                      1500,
+		"calls:wrong-count":                             1500,
+		"calls:wrong-type":                              1500,
+		"calls:number-out-of-range-for-kind":            150,
+		"calls:nan-or-inf-into-integer":                 100,
+		"calls:fractional-into-integer":                 100,
+		"faithful-conversions-checked":                  2000,
+		"variadic-accepted":                             100,
+		"variadic-tail-lengths>=2":                      100,
+		"named-parameter-type-accepted":                 100,
+		"function-bridge":                               900,
+		"command-bridge":                                900,
+		"command-in-bridge-goroutine":                   100,
+		"result:value-converted-back":                   150,
+		"result:error-surfaced":                         150,
+		"result:nil-channel-is-error":                   10,
 	}
 	for _, k := range []string{"int", "int8", "int16", "int32", "int64", "float32", "float64", "bool", "string", "MyInt", "MyInt8", "MyFloat", "MyBool", "MyString"} {
 		th["accepted-param:"+k] = 20
@@ -547,7 +548,61 @@ func (p c16) afterRefusal(c *core.Ctx, command bool, refusedValue any, detail fu
 	c.Feature("script-run-after-refused-registration")
 }
 
+// c16Coins and c16Tagger are closure factories that are not inlined, so that every closure they return has
+// the same code pointer (an inlined factory gets a copy of the closure body per call site).
+//
+//go:noinline
+func c16Coins(n float64) func() float64 { return func() float64 { return n } }
+
+//go:noinline
+func c16Tagger(log *[]string, tag string) func(string) {
+	return func(string) { *log = append(*log, tag) }
+}
+
+// reRegistration: registering another value under a name that is taken replaces the earlier one - also when
+// both values come from the same function literal (closures over different state share their code pointer)
+// or are method values of the same method.
+func (p c16) reRegistration(c *core.Ctx) {
+	r := c.R
+	coins := c16Coins
+	a, b := float64(r.Range(1, 50)), float64(r.Range(51, 99))
+	var called []string
+	cmd := func(tag string) func(string) { return c16Tagger(&called, tag) }
+	script := "title: Start\n---\ncoins {g()}\n<<act x>>\nafter\n===\n"
+	rr, err, pan := mon.Create(nil, "", []string{script})
+	if err != nil || pan != "" {
+		c.Inconclusive("re-registration script failed to load")
+		return
+	}
+	for _, reg := range []func() error{
+		func() error { return rr.DR.ConvertAndAddFunction("g", coins(a)) },
+		func() error { return rr.DR.ConvertAndAddFunction("g", coins(b)) },
+		func() error { return rr.DR.ConvertAndAddCommand("act", cmd("first")) },
+		func() error { return rr.DR.ConvertAndAddCommand("act", cmd("second")) },
+	} {
+		if err := reg(); err != nil {
+			c.Violate("registering func() float64 / func(string) failed: "+err.Error(), nil)
+			return
+		}
+	}
+	o1 := rr.Next(0)
+	o2 := rr.Next(0)
+	want := fmt.Sprintf("coins %v", b)
+	if o1.Kind != mon.KLine || o1.Text != want || o2.Kind != mon.KLine || o2.Text != "after" || len(called) != 1 || called[0] != "second" {
+		c.Violate("a second registration under the same name (a closure of the same function literal) did not replace the first", map[string]any{
+			"readers": []string{script}, "first_returns": a, "second_returns": b, "line_shown": o1.String(), "then": o2.String(), "command_handlers_invoked": called})
+		return
+	}
+	c.Feature("re-registrations-with-closures-of-one-literal")
+}
+
 func (p c16) Run(c *core.Ctx) {
+	if c.Idx%4 == 0 {
+		p.reRegistration(c)
+		if c.Failed() {
+			return
+		}
+	}
 	r := c.R
 	s := p.pickSig(c)
 	c.Feature("signatures")
